@@ -127,10 +127,12 @@ def send_append_entries(ctx):
            'batchSizeBytes': B, 'startTime': FreshReal('startTime')}
     left_loop = False
     try:
-        kind, v, fr = run_region(I, so, SEND, loop.body, loc)
+        kind, v, fr = run_region(I, so, SEND, loop.body, loc, loop=loop)
     except (_Break, _Continue) as e:
         kind, v = 'ok', None
         left_loop = isinstance(e, _Break)
+    if kind == 'not-entered':
+        return          # the loop test is false for this state: no round happens
     ctx.prove(kind == 'ok', 'C11+C01+C09:O11.5.send-loop.no-exception', info=getattr(v, 'typ', None))
     if kind != 'ok':
         return
